@@ -7,6 +7,7 @@ from ..rateprobe import run_case, updated, common_buckets, exc_detail
 from ..util import KIND, MODEL_NAMES
 
 PROPERTY = "C04"
+TECHNIQUE = "runtime monitoring: shadow-execution monitor over permuted presentations of one game (all n! for n<=5 on base games)"
 LEVEL = "exploration"
 RULE = ("Each base game is rated by the real code in its original presentation and in permuted presentations (teams "
         "permuted with their ranks/scores, players permuted within teams); posteriors are mapped back per player and "
